@@ -163,6 +163,14 @@ def _field_ty(tyref, i):
     return None
 
 
+def _field_name(tyref, i):
+    adt = _ADTS.get(adt_base_name(tyref.s))
+    if adt is None or adt["kind"] != "struct" or not isinstance(i, int):
+        return i
+    fs = adt["variants"][0]["fields"]
+    return fs[i]["name"] if i < len(fs) else i
+
+
 def ty_s(ty):
     if ty is None:
         return None
@@ -360,9 +368,10 @@ class Interp:
                         fty = TyRef(v.ty.types, r["of"][p])
                     elif r.get("k") == "adt" and isinstance(p, int):
                         fty = _field_ty(v.ty, p)
+                pn = _field_name(v.ty, p) if isinstance(v.ty, TyRef) else p
                 if fty is not None and fty.s == "bool":
-                    return Sym("%s.%s" % (v.label, p))
-                return Top("%s.%s" % (v.label, p), fty)
+                    return Sym("%s.%s" % (v.label, pn))
+                return Top("%s.%s" % (v.label, pn), fty)
             else:
                 return Top("proj")
         return v
@@ -554,6 +563,10 @@ class Interp:
                     if p < len(fs):
                         nm = fs[p]["name"]
                 v = v.fields[p] if p < len(v.fields) else None
+            elif isinstance(v, Top) and isinstance(v.ty, TyRef):
+                nm = str(_field_name(v.ty, p))
+                ft = _field_ty(v.ty, p) if isinstance(p, int) else None
+                v = Top("?", ft) if ft is not None else None
             else:
                 v = None
             names.append(nm)
@@ -791,7 +804,7 @@ class Interp:
             elif isinstance(addr, str):
                 k = val.key()
                 items.append((addr, k))
-            elif isinstance(addr, tuple) and addr and addr[0] == "h":
+            elif isinstance(addr, tuple) and addr and addr[0] in ("h", "cl"):
                 k = val.key()
                 items.append((addr, k))
             else:
@@ -1062,7 +1075,8 @@ class Interp:
         envty = body.local_ty(1)
         st2 = st.fork()
         if envty.get("k") == "ref":
-            addr = self.alloc(st2, cl)
+            addr = ("cl", body.key, frame.depth)
+            st2.heap[addr] = cl
             env = Ref(addr, (), envty.get("mut", False))
         else:
             env = cl
